@@ -404,6 +404,9 @@ pub enum Action {
     /// another program already holds this TCP port (no SO_REUSEPORT) / this UDP port
     ForeignTcpListen { port: u16 },
     ForeignUdpBind { port: u16 },
+    /// change a fault rate at run time (a condition that sets in and persists: e.g. every
+    /// recv_from failing with ENOBUFS while memory is short); kinds: recv_err, send_err
+    SetFault { kind: String, permille: u32 },
     /// the server process runs out of file descriptors (accept fails with EMFILE) / gets them back
     FdExhaustion { on: bool },
     WallStepMs(i64),
